@@ -73,7 +73,19 @@ func (g *G) Len1() int {
 const alphabet = "abcdefghijklmnopqrstuvwxyzABCDEFGHIJKLMNOPQRSTUVWXYZ0123456789/-_."
 
 // Str returns a well-formed UTF-8 string of exactly n bytes (no U+0000).
-var specials = []string{"#", "+", "a/+/b", "a/#", "$SYS/broker/load", "$share/group/topic", "/", "//", " ", "a b", "MQTT", "MQIsdp", "mqtt", "Mqtt", "MQTT5", "MQT", "\u00e9\u20ac", "\U0001F600", "0", "null", "%s%d", "../x"}
+var filterCorpus = []string{"#", "+", "a/+/b", "a/#", "+/+", "/", "//", "a//b", "$SYS/#", "$SYS/broker/load", "$share/g/t", "$share/g/#", "$share", "$share/", "$share/g", "$share/g/", "$share//t", "$share/+/t", "$queue/t", "a/b/c/d/e/f/g/h", "sport/tennis/+", "x"}
+
+// Filter returns a topic filter: one time in four from a corpus of filters that
+// matter to MQTT (wildcards, shared subscriptions with and without a filter part,
+// $-topics, empty levels), otherwise a generated string of the drawn length.
+func (g *G) Filter() []byte {
+	if g.T.Bool(1, 4) {
+		return []byte(filterCorpus[g.T.Int(len(filterCorpus))])
+	}
+	return g.Str(g.Len1())
+}
+
+var specials = []string{"#", "+", "a/+/b", "a/#", "$SYS/broker/load", "$share/group/topic", "$share", "$share/g", "/", "//", " ", "a b", "MQTT", "MQIsdp", "mqtt", "Mqtt", "MQTT5", "MQT", "\u00e9\u20ac", "\U0001F600", "0", "null", "%s%d", "../x"}
 
 func (g *G) Str(n int) []byte {
 	if n == 0 {
